@@ -23,6 +23,9 @@ type c14Cfg struct {
 	del     bool
 	blobDel bool
 	layout  layoutKind
+	// gcAll: untagged manifests collectable at once (Untagged on, no grace period): a store that must not collect at all
+	// is then told apart from one whose policy merely keeps everything
+	gcAll bool
 }
 
 func (c c14Cfg) name() string {
@@ -32,7 +35,11 @@ func (c c14Cfg) name() string {
 		}
 		return "0"
 	}
-	return fmt.Sprintf("c14-%s-ro%s-push%s-del%s-blobdel%s-%s", c.store, b(c.ro), b(c.push), b(c.del), b(c.blobDel), c.layout.Name)
+	n := fmt.Sprintf("c14-%s-ro%s-push%s-del%s-blobdel%s-%s", c.store, b(c.ro), b(c.push), b(c.del), b(c.blobDel), c.layout.Name)
+	if c.gcAll {
+		n += "-gcall"
+	}
+	return n
 }
 
 func c14Specs(tier string) []*h.SeqSpec {
@@ -45,20 +52,22 @@ func c14Specs(tier string) []*h.SeqSpec {
 		if tier != "thorough" && i >= 7 {
 			break
 		}
-		cfgs = append(cfgs, c14Cfg{"dir", true, true, true, true, l}, c14Cfg{"memdir", false, true, true, true, l})
+		cfgs = append(cfgs, c14Cfg{store: "dir", ro: true, push: true, del: true, blobDel: true, layout: l}, c14Cfg{store: "memdir", push: true, del: true, blobDel: true, layout: l})
 	}
 	if tier == "thorough" {
 		for _, l := range lays {
-			cfgs = append(cfgs, c14Cfg{"memdir", true, true, true, true, l})
+			cfgs = append(cfgs, c14Cfg{store: "memdir", ro: true, push: true, del: true, blobDel: true, layout: l})
 		}
 	}
+	// read-only stores with a policy under which content would be collectable at once
+	cfgs = append(cfgs, c14Cfg{store: "memdir", ro: true, push: true, del: true, blobDel: true, layout: lays[0], gcAll: true}, c14Cfg{store: "dir", ro: true, push: true, del: true, blobDel: true, layout: lays[0], gcAll: true})
 	// every combination of the API switches on the converted layout (read-only directory, memory over directory, writable directory)
 	for mask := 0; mask < 8; mask++ {
 		push, del, bd := mask&1 != 0, mask&2 != 0, mask&4 != 0
 		if push && del && bd {
 			continue // covered above
 		}
-		cfgs = append(cfgs, c14Cfg{"dir", true, push, del, bd, lays[0]}, c14Cfg{"memdir", false, push, del, bd, lays[0]}, c14Cfg{"dir", false, push, del, bd, lays[0]})
+		cfgs = append(cfgs, c14Cfg{store: "dir", ro: true, push: push, del: del, blobDel: bd, layout: lays[0]}, c14Cfg{store: "memdir", push: push, del: del, blobDel: bd, layout: lays[0]}, c14Cfg{store: "dir", push: push, del: del, blobDel: bd, layout: lays[0]})
 	}
 	items := []string{"c", "l1", "l2", "e", "b4", "I1", "I2", "A1"}
 	tags := []string{"t", "u"}
@@ -145,10 +154,17 @@ func c14Specs(tier string) []*h.SeqSpec {
 		other("collection tick", func(w *h.World) {
 			if d := vrt.NextPeriodic(); d >= 0 {
 				vrt.Advance(d, false)
-				w.Aux["dirty"] = "1" // a memory store may collect its own view; the reference does not tick
+				if !cf.ro {
+					w.Aux["dirty"] = "1" // a writable memory store may collect its own view; the reference does not tick
+				}
 			}
 		})
-		other("advance 3h (cache expiry)", func(w *h.World) { vrt.Advance(3*time.Hour, false); w.Aux["dirty"] = "1" })
+		other("advance 3h (cache expiry)", func(w *h.World) {
+			vrt.Advance(3*time.Hour, false)
+			if !cf.ro {
+				w.Aux["dirty"] = "1"
+			}
+		})
 		ops = append(ops, h.Op{Name: "close and reopen", Do: func(w *h.World) []h.Violation {
 			ls := vos.LogLen()
 			var vs []h.Violation
@@ -173,6 +189,10 @@ func c14Specs(tier string) []*h.SeqSpec {
 				c.API.Blob.DeleteEnabled = bpF(cf.blobDel)
 				c.Storage.GC.Frequency = 15 * time.Minute
 				c.Storage.GC.GracePeriod = time.Hour
+				if cf.gcAll {
+					c.Storage.GC.Untagged = bpF(true)
+					c.Storage.GC.GracePeriod = -1
+				}
 			}},
 			Init: func(w *h.World) {
 				w.Aux["snap"] = h.SnapshotTree(w.Dir)
